@@ -161,6 +161,7 @@ class C15(Prop):
                         await srv.kill_life(life)
                         continue
                     info["run_id"] = hd.run_id
+                    info["t0"] = VClock.t
                     inner = None
                     t0 = VClock.t
                     extra = case.get("extra")
@@ -232,6 +233,7 @@ class C15(Prop):
                     info["row"] = {"status": row.status if row else None, "result": srv.result_of(row), "error": row.error if row else None, "run_id": row.run_id if row else None}
                     await srv.kill_life(life)
                 obs["status_writes"] = list(proxy.status_writes)
+                obs["write_spans"] = [dict(x) for x in proxy.__dict__.get("write_spans", [])]
                 obs["injected"] = proxy.injected
             finally:
                 srv.cleanup_tmp(tmp)
@@ -248,11 +250,20 @@ class C15(Prop):
             end = info["end"]
             attrs = dict(end=end, injected_write_failures=inj > 0, second_run=n > 0, store=case["store"])
             # WorkflowHandler.cancel_run() waits 5 s for the run and then cancels its task; the task is the control loop, and the
-            # 'cancelled' status write (with its retry pauses) runs inside it
-            grace_cut = bool(
-                end == "cancel" and info.get("truth") == "task_cancelled" and inj > 0 and 2 * (case.get("backoff") or 0.0) >= 5.0
-                and info.get("ended_at") is not None and info.get("cancel_at") is not None and abs(info["ended_at"] - info["cancel_at"] - 5.0) < 0.01
-            )
+            # 'cancelled' status write and the event-log writes (with their latency and retry pauses) run inside it.  The signature of
+            # that root cause: a user cancel, the run's task cancelled exactly 5 s after the cancel call, and at that very instant a
+            # store write of the graceful shutdown was still in flight or waiting out its retry pause (a loop that simply hangs after a
+            # cancel is also killed after 5 s, but with no store write under way)
+            grace_cut = False
+            if end == "cancel" and info.get("truth") == "task_cancelled" and info.get("ended_at") is not None and info.get("cancel_at") is not None \
+                    and abs(info["ended_at"] - info["cancel_at"] - 5.0) < 0.01:
+                T = info.get("t0", 0.0) + info["ended_at"]
+                bo = case.get("backoff") or 0.0
+                for sp in obs.get("write_spans", []):
+                    if sp["t0"] <= T + 1e-9 and sp["t1"] is not None and sp["t1"] >= T - 1e-9 and sp["t1"] > sp["t0"]:
+                        grace_cut = True  # in flight (a slow write)
+                    if sp["ok"] is False and sp["t1"] is not None and sp["t1"] - 1e-9 <= T <= sp["t1"] + bo + 1e-9 and bo > 0:
+                        grace_cut = True  # waiting out the pause before its retry
             if info.get("start_error"):
                 # the initial handler row could not be written within the backoff budget: the run was never started; nothing to reflect
                 r.classes.append("start_rejected")
